@@ -154,6 +154,10 @@ WORKFLOW_STATE_MACHINE_DATA = {
         events.WORKFLOW_FAILED: statuses.FAILED,
         events.TASK_RUNNING: statuses.RUNNING,
         events.TASK_RESUMING: statuses.RUNNING,
+        # The workflow can already be paused when a task failure is processed. For example,
+        # the fail command that follows the last task that completed while workflow is pausing.
+        events.TASK_FAILED_WORKFLOW_ACTIVE: statuses.FAILED,
+        events.TASK_FAILED_WORKFLOW_DORMANT: statuses.FAILED,
     },
     statuses.RESUMING: {
         events.WORKFLOW_PAUSING_WORKFLOW_ACTIVE: statuses.PAUSING,
